@@ -269,8 +269,12 @@ impl<'a, DL: HeaderFieldsProvider> HeaderAcceptor<'a, DL> {
                     true
                 }
             } else {
+                // UnknownParentError: the message is rejected (and its sender punished), but the
+                // header itself cannot be judged before its parent is known. Remembering its hash
+                // as BLOCK_INVALID would make the node refuse the very same header (and ban the
+                // peer sending it) once the parent has arrived.
                 state.invalid(Some(ValidationError::Verify(error)));
-                true
+                false
             }
         })
     }
